@@ -190,6 +190,43 @@ func TestC06(t *testing.T) {
 				r.LabelN("unit-pairs", n)
 			}
 		}
+		// 3b. escape look-alikes: sequences of 1-3 units, each a real escape \\uXXXX, an escaped
+		// backslash followed by the text uXXXX, or the bare text uXXXX (a decoder that looks back
+		// or ahead at raw bytes instead of at what was consumed confuses them)
+		if e.enumStage("escape-lookalikes", "all sequences of 1-3 units over {real escape, escaped-backslash + text, bare text} x {D83D, DE00, D800, DC00, 0041, 00e9, DBFF, DFFF} (24 unit kinds: 24 + 576 + 13824 strings)", true) {
+			vals := []string{"D83D", "DE00", "d800", "dc00", "0041", "00e9", "DBFF", "dfff"}
+			var units []string
+			for _, v := range vals {
+				units = append(units, `\u`+v, `\\u`+v, `u`+v)
+			}
+			buf := make([]byte, 0, 64)
+			idx := 0
+		look:
+			for a := -1; a < len(units); a++ {
+				for b := -1; b < len(units); b++ {
+					if a < 0 && b >= 0 {
+						continue
+					}
+					for c := 0; c < len(units); c++ {
+						idx++
+						if !e.cfg.Mine(idx) {
+							continue
+						}
+						buf = append(buf[:0], '"')
+						if a >= 0 {
+							buf = append(buf, units[a]...)
+						}
+						if b >= 0 {
+							buf = append(buf, units[b]...)
+						}
+						buf = append(append(buf, units[c]...), '"')
+						if !run("escape-lookalike", buf) {
+							break look
+						}
+					}
+				}
+			}
+		}
 		// 4. sweeps around generated well-formed string tokens
 		e.rapidStage("sweep", "sweep", e.cfg.N(400, 30000), func(rt *rapid.T) {
 			b := gen.Str(rt, nil, 6)
